@@ -91,14 +91,16 @@ const N: usize = 3;
 
 /// The journal as the store returns it (N transactions; `mask[k]` says whether
 /// this caller may see transaction k) and the journal of a Space in which the
-/// hidden ones never happened. Sequences are symbolic.
+/// hidden ones never happened.
 fn journals(mask: [bool; N]) -> (Vec<TransactionRow>, Vec<TransactionRow>) {
     let mut with_hidden = Vec::with_capacity(N);
     let mut without = Vec::with_capacity(N);
     let mut k = 0;
     while k < N {
+        // (distinct concrete sequences: they identify the rows in the compared pages;
+        // symbolic ones cost 170 s per harness and may coincide, hiding a difference)
         let row = TransactionRow {
-            seq: kani::any(),
+            seq: 10 + k as u64,
             visible: mask[k],
         };
         with_hidden.push(row);
@@ -124,10 +126,19 @@ fn same(a: &Vec<Json>, b: &Vec<Json>) -> bool {
     true
 }
 
+/// 0..=N+1 or usize::MAX (the unstated LIMIT): with N rows every larger value
+/// behaves like N+1. (Full-width symbolic offset / limit: 140-170 s per harness in
+/// the skip/take adaptors.)
+fn small() -> usize {
+    let v: u8 = kani::any();
+    kani::assume(v as usize <= N + 2);
+    if v as usize == N + 2 { usize::MAX } else { v as usize }
+}
+
 fn history_case(mask: [bool; N]) {
     let (a, b) = journals(mask);
-    let offset: usize = kani::any();
-    let limit: usize = kani::any();
+    let offset = small();
+    let limit = small();
     let (pa, ca, ta) = block_on(verif_history_page(&mut VerifCx, a, offset, limit, None));
     let (pb, cb, tb) = block_on(verif_history_page(&mut VerifCx, b, offset, limit, None));
     let (pa, pb) = (ManuallyDrop::new(pa), ManuallyDrop::new(pb));
@@ -142,7 +153,7 @@ fn history_case(mask: [bool; N]) {
 
 fn changes_case(mask: [bool; N]) {
     let (a, b) = journals(mask);
-    let limit: usize = kani::any();
+    let limit = small();
     let (pa, ma, la) = block_on(verif_changes_page(&mut VerifCx, a, limit));
     let (pb, mb, lb) = block_on(verif_changes_page(&mut VerifCx, b, limit));
     let (pa, pb) = (ManuallyDrop::new(pa), ManuallyDrop::new(pb));
